@@ -172,7 +172,11 @@ ActionClauses(e) ==
          LET split == IF e.plat = "nxos" THEN UngroupPortsItems(pre.items) ELSE pre.items
              pred  == IF e.plat = "nxos" THEN Regroup(pre, split) ELSE split
              unsafe == UnsafeSplitIn(pre.items)
-         IN  Chk(e.exc = "", e, "C02.conversion-raised")
+             refusedStd == e.plat = "nxos" /\ pre.typ = "standard"         \* NX-OS has no standard lists: refused, nothing changes
+         IN  IF refusedStd THEN Chk(e.exc # "", e, "C02.standard-list-accepted-on-nxos")
+                                \o Chk(o = pre, e, "C02.refused-conversion-left-the-list-half-converted")
+             ELSE
+             Chk(e.exc = "", e, "C02.conversion-raised")
              \o (IF e.exc # "" THEN <<>> ELSE
                  Compare(e, pred, o.items, old, "C02")
                  \o Chk(o.plat = e.plat /\ o.name = pre.name /\ o.grpBy = pre.grpBy /\ o.portNr = pre.portNr /\ o.protoNr = pre.protoNr, e, "C02.settings")
